@@ -730,6 +730,30 @@ def readers_read_only(ctx: Ctx, v: LocalView, rule: str) -> int:
     return n
 
 
+def path_entry_presence(ctx: Ctx, v: "LocalView", rule: str) -> int:
+    """fetch_paths resolves a path entry only after `os.path.exists(<that entry>)` held: the test follows the link (a link whose blob is
+    gone - a failed or killed evaluation - is not a committed path) and it is made on the entry itself, not on its directory"""
+    rep = ctx.report
+    f = v.func("fetch_paths")
+    effs = v.m.effects_of("fetch_paths")
+    reals = [e for e in effs if e.kind == "PROBE" and str(e.extra.get("how", "")) == "realpath" and mentions_sym(e.term, "PATH")]
+    n = 0
+    for r in reals:
+        n += 1
+        same = [e for e in effs if e.kind == "PROBE" and e.term == r.term and e is not r]
+        good = [e for e in same if str(e.extra.get("how", "")) in ("os.path.exists", "exists", "os.path.isfile", "is_file")]
+        desc = f"the entry {show(r.term)} is resolved only after os.path.exists() of that entry"
+        if good:
+            rep.ok(rule, _site(v, "fetch_paths"), desc, f.loc(good[0].node))
+        else:
+            others = [f"{f.loc(e.node)}: {e.extra.get('how')}({show(e.term)})" for e in effs if e.kind == "PROBE" and e is not r]
+            rep.bad(rule, _site(v, "fetch_paths"), desc, f.loc(r.node), [f"{f.loc(r.node)}: `{unparse(r.node, 50)}` resolves the entry", "presence tests of fetch_paths:"] + others + [
+                    "a path whose link is not committed yet (directory created, process killed before the link) or whose link dangles (blob of a failed evaluation never written) is taken for "
+                    "a committed path: dds.load returns None and readers are evaluated and stored on None"], "entry-presence",
+                    what="fetch_paths resolves a path entry without a link-following existence test of that entry")
+    return n
+
+
 def record_rewritten_unless_current(ctx: Ctx, rule: str) -> int:
     """DBFS sync_paths: an iteration ends without writing the redirect record of its path only after a comparison showed that the
     record read from the store already names the key being committed"""
